@@ -329,17 +329,35 @@ type FrOfPmTreeHasher = FrOf<PmTreeHasher>;
 
 impl PmTree {
     fn remove_indices(&mut self, indices: &[usize]) -> Result<()> {
-        let start = indices[0];
-        let end = indices.last().unwrap() + 1;
+        if indices.iter().any(|i| *i >= self.capacity()) {
+            return Err(Report::msg("index to remove exceeds set size"));
+        }
+        // Positions at or above the number of leaves set are already empty.
+        // `indices` is sorted: we reset each run of consecutive indices with one batch write,
+        // leaving the positions between the runs untouched.
+        let next_index = self.leaves_set();
+        let mut indices: Vec<usize> = indices.iter().copied().filter(|i| *i < next_index).collect();
+        indices.dedup();
 
-        let new_leaves = (start..end).map(|_| PmTreeHasher::default_leaf());
+        let mut i = 0;
+        while i < indices.len() {
+            let start = indices[i];
+            let mut end = start + 1;
+            i += 1;
+            while i < indices.len() && indices[i] == end {
+                end += 1;
+                i += 1;
+            }
 
-        self.tree
-            .set_range(start, new_leaves)
-            .map_err(|e| Report::msg(e.to_string()))?;
+            let new_leaves = (start..end).map(|_| PmTreeHasher::default_leaf());
 
-        for i in start..end {
-            self.cached_leaves_indices[i] = 0
+            self.tree
+                .set_range(start, new_leaves)
+                .map_err(|e| Report::msg(e.to_string()))?;
+
+            for i in start..end {
+                self.cached_leaves_indices[i] = 0
+            }
         }
         Ok(())
     }
